@@ -199,3 +199,56 @@ CHECKS["C06"] = {
     "level_text": "Complete enumeration of the stated CFG/relation/parameter space on the real fixpoint iterator with an exact oracle.",
     "level_note": "16-state concrete space and <=3 (4) blocks; the real-domain clause (no extrapolation within widening_delay) is checked by the C01 program engine.",
 }
+
+_E2_ASSUME = [
+    "the concrete semantics of DESIGN.md §1.3 is an under-approximation of the collecting semantics (ambiguous steps are stuck), so an escaping state is a genuine counterexample",
+    "concrete exploration is bounded by a horizon of block transitions and |v|<=1e6; initial values and havoc range over {-2..2}",
+    "the interpreter executes the statements decompiled from the real crab::cfg object handed to the analyzer",
+    "the powerset domain is left out of program-level checks (known finding F-POWERSET), fixed_tvpi likewise (F-TVPI)",
+]
+
+CHECKS["C01"] = {
+    "level": "model_checking",
+    "technique": "exhaustive enumeration of small CrabIR programs built as real cfgs; explicit-state exploration of every concrete execution; every forward invariant checked to contain every reached state",
+    "design_ref": "DESIGN.md §2 C01",
+    "jobs": [{"bin": "e2_prog", "args": ["--family", "num"], "deadline": {"quick": 420, "thorough": 3000}},
+             {"bin": "e2_prog", "args": ["--family", "bool", "--maxn", "2"], "deadline": {"quick": 200, "thorough": 1200}}],
+    "rule": ("all CFG skeletons with n<=3 blocks (every edge set: entry with predecessors, self loops, nested and irreducible cycles, unreachable "
+             "blocks) x every assignment of <=1 statement per block from an alphabet of 9 (quick) / 14 (thorough) statements over x,y (constants, "
+             "increments, copies, sums, havoc, assumes incl. strict and disequalities, multiplication), plus two-statement blocks for n=2; boolean "
+             "family over x,y,b1 for the flat boolean domains; x 2 (3) initial values x 8 (20) domains x 3 (7) fixpoint parameter tuples "
+             "(widening delay, descending iterations, thresholds, liveness pruning). For every block, every concrete state arriving at / leaving "
+             "it must satisfy M1-M4 of get_pre / get_post. distinct_nontrivial = distinct printed invariants of the last block."),
+    "assumptions": _E2_ASSUME,
+    "level_text": "Complete enumeration of the stated program space; each program's concrete state space is explored exhaustively within the horizon and every analysis runs on the real analyzer.",
+    "level_note": "Programs with more than 3 blocks / 1-2 statements per block, other statement kinds and values outside the box are not covered.",
+}
+
+CHECKS["C02"] = {
+    "level": "model_checking",
+    "technique": "same program enumeration with assertions; verdicts of the intra forward checker and of the forward+backward analyzer (all fwd_bwd parameter settings) confronted with explicit-state exploration",
+    "design_ref": "DESIGN.md §2 C02",
+    "jobs": [{"bin": "e2_prog", "args": ["--family", "num"], "deadline": {"quick": 420, "thorough": 3000}},
+             {"bin": "e2_prog", "args": ["--family", "bool", "--maxn", "2"], "deadline": {"quick": 200, "thorough": 1200}}],
+    "rule": ("the C01 program space restricted to programs containing at least one assertion (numeric assert(x<=1), assert(x>=0), assert(x<=y); "
+             "bool_assert in the boolean family), each occurrence with its own debug id. For every domain / fixpoint parameter tuple: "
+             "intra_fwd_analyzer + intra_checker(assert_property_checker), and intra_forward_backward_analyzer with enable_backward x "
+             "max_refine_iterations {0,1,5} x use_refined_invariants + intra_checker. SAFE => no explored execution reaches the assertion with a "
+             "false condition; UNREACHABLE => no explored execution reaches it. Warnings are never judged."),
+    "assumptions": _E2_ASSUME,
+    "level_text": "Complete enumeration of the stated program space with an explicit-state oracle for 'violated' and 'reached'.",
+    "level_note": "Inter-procedural checkers are exercised by C09/C10.",
+}
+
+CHECKS["C05"] = {
+    "level": "model_checking",
+    "technique": "every analysis of the enumerated loop-bearing programs runs under a deterministic fixpoint-iteration budget (hook CRAB_VERIF_TICK); widening chains explored exhaustively over transformer alphabets",
+    "design_ref": "DESIGN.md §2 C05",
+    "jobs": [{"bin": "e2_prog", "args": ["--family", "num"], "deadline": {"quick": 420, "thorough": 3000}}],
+    "rule": ("the C01 program space restricted to programs with a cycle, every domain / fixpoint parameter tuple: the forward analysis must finish "
+             "within 20000 fixpoint iterations (ascending + descending, counted by the tick hook placed in the wto cycle loops, the kill/gen "
+             "iterator, the forward-backward refinement loop and the inter-procedural recursion). max.max_fixpoint_ticks reports the maximum observed."),
+    "assumptions": ["budget 20000 is >50x the maximum observed on the unchanged tree; a violation is replayable because the budget is an iteration count, not wall-clock time"],
+    "level_text": "Complete enumeration of the stated program space; non-termination is a deterministic, replayable verdict.",
+    "level_note": "Widening/narrowing soundness clauses (result contains the arguments) are checked at operator level by C03/C04/C08.",
+}
